@@ -183,6 +183,9 @@ def check_history (c):
         for k in ('far', 'near'):
             if last [k]:
                 request (MM, fr, last [k])
+        if 'near-field' in opts and not (np.isfinite (np.asarray (m.e_field)).all () and np.isfinite (np.asarray (fr.e_field)).all ()):
+            # a power level was asked for while the sources absorb net power: no finite field to print on either object
+            return dict (status = 'discard', reason = 'near field not finite (sources absorb net power)')
         try:
             a = snapshot (m, opts)
             b = snapshot (fr, opts)
